@@ -139,7 +139,7 @@ def unit_h1(cfg):
         nres = len(want_buf)
         defs = set(d.get_id() for d in r["defs"])
         H2 = [c for c in H if c.get_id() not in defs]
-        want = kharness.align_leaves(u, H2, want_buf, r["defs"])
+        want = kharness.align_leaves(u, H2, want_buf, r["defs"], on_cex=_cex(ctx, "leaf-arguments"))
         u.prove("accumulators", z3.And(*[got[i] == want[i] for i in range(nres)]), H,
                 _cex(ctx, "accumulators"), sample=(pi == 0), abstract=True)
         _prove_side(u, r["side"], H, lambda d: _cex(ctx, "side:" + d))
@@ -506,6 +506,12 @@ def real_vs_reference(name, dim, mesh, q, cutoff, mode):
         if one[nout * nq] == 0:        # invalid point
             continue
         one = one / one[nout * nq]
+        if dim == "2d":
+            # independent orientation: the model's own Iqac/Iqabc (float-mode IR of the
+            # real source) at R^-1 (qx,qy,0) computed here from the documented matrices
+            indep = _oriented_point(name, mesh, multi, qv)
+            if indep is not None:
+                one[:nq] = indep
         ref += w * one
     scale, bg = mesh[0][0], mesh[1][0]
     Iref = scale * ref[0:nout * nq:nout] / ref[nout * nq + 2] + bg if ref[nout * nq] != 0 and ref[nout * nq + 2] != 0 \
@@ -517,6 +523,56 @@ def real_vs_reference(name, dim, mesh, q, cutoff, mode):
     relI = np.where(np.isfinite(relI), relI, 0.0)
     return float(max(rel.max(), relI.max())), {"real": real.tolist(), "reference": ref.tolist(),
                                                "I_real": Ireal.tolist(), "I_reference": Iref.tolist()}
+
+
+def _oriented_point(name, mesh, multi, qv):
+    """I(qx,qy) of one mesh point of an oriented model, from the model's own
+    Iqac/Iqabc evaluated by the float-mode interpreter at the particle-frame q
+    given by the documented R = Rz(phi)Ry(theta)Rz(psi)Rx(dphi)Ry(dtheta)Rz(dpsi)."""
+    from vlib.llsym import interp as _interp
+    km = KModel.get(name)
+    if km.xy_mode not in ("qac", "qabc"):
+        return None
+    info = km.info
+    npars = info.parameters.npars
+    cps = info.parameters.call_parameters[2:2 + npars]
+    if any(p.length > 1 for p in info.parameters.kernel_parameters):
+        return None
+    x, jit = {}, {}
+    for i, p in enumerate(cps):
+        val, d, _w = mesh[2 + i]
+        if p.type == "orientation":
+            x[p.id] = float(val)
+            jit[p.id] = float(d[multi[i]])
+        else:
+            x[p.id] = float(d[multi[i]])
+
+    def rz(a):
+        c, s_ = np.cos(np.radians(a)), np.sin(np.radians(a))
+        return np.array([[c, -s_, 0], [s_, c, 0], [0, 0, 1]])
+
+    def ry(a):
+        c, s_ = np.cos(np.radians(a)), np.sin(np.radians(a))
+        return np.array([[c, 0, s_], [0, 1, 0], [-s_, 0, c]])
+
+    def rx(a):
+        c, s_ = np.cos(np.radians(a)), np.sin(np.radians(a))
+        return np.array([[1, 0, 0], [0, c, -s_], [0, s_, c]])
+
+    asym = km.xy_mode == "qabc"
+    R = rz(x["phi"]) @ ry(x["theta"]) @ (rz(x.get("psi", 0.0)) if asym else np.eye(3))
+    J = rx(jit.get("phi", 0.0)) @ ry(jit.get("theta", 0.0)) @ (rz(jit.get("psi", 0.0)) if asym else np.eye(3))
+    M = R @ J
+    iq = [x[p.id] for p in info.parameters.iq_parameters]
+    out = []
+    for qx, qy in zip(qv[0], qv[1]):
+        qa, qb, qc = M.T @ np.array([qx, qy, 0.0])
+        it = _interp.Interp(km.mod, mode="float", max_steps=50000000)
+        if asym:
+            out.append(it.call("Iqabc", [float(qa), float(qb), float(qc)] + iq))
+        else:
+            out.append(it.call("Iqac", [float(np.hypot(qa, qb)), float(qc)] + iq))
+    return np.array(out)
 
 
 def _cex(ctx, oracle, extra=""):
